@@ -657,6 +657,8 @@ def rule_R7(toks: List[Tok], k: int, rep: Report, fn: str) -> List[Tok]:
         raise Undecided(f"R7: loop body of for #{k} in {fn} uses continue/labels")
     txt = compact(head)
     m = re.fullmatch(r"\((\w+),&(\w+)\)in ([\w.]+)\.iter\(\)\.enumerate\(\)", txt)
+    m_enum = m is not None
+    mw = None
     pos = toks[kw].pos
     idx = f"idx__{k}"
     pre = f"let mut {idx}: usize = 0;"
@@ -666,19 +668,31 @@ def rule_R7(toks: List[Tok], k: int, rep: Report, fn: str) -> List[Tok]:
         bind = f"let {i_name}: usize = {idx}; let {x} = {v}[{idx}];"
     else:
         m = re.fullmatch(r"&?(\w+) in ([\w.]+)\.iter\(\)", txt)
-        if not m:
+        mt = re.fullmatch(r"\(([\w,]+)\) ?in ?&(\w+)", txt)
+        mw = re.fullmatch(r"(\w+) in (\w+)\.windows\((\w+)\)", txt)
+        if mt:
+            # for (a, _, c) in &V: a tuple pattern against `&T` binds references to the fields (default binding modes), as does `let (..) = &V[i]`
+            x, v = "(" + mt.group(1).replace(",", ", ") + ")", mt.group(2)
+            bind = f"let {x} = &{v}[{idx}];"
+        elif mw:
+            # R23: for W in V.windows(N): every contiguous sub-slice of length N, in order
+            x, v, nwin = mw.group(1), mw.group(2), mw.group(3)
+            bind = f"let {x} = &{v}[{idx}..{idx} + {nwin}];"
+        elif m:
+            amp = txt.startswith("&")
+            x, v = m.group(1), m.group(2)
+            bind = f"let {x} = {'' if amp else '&'}{v}[{idx}];"
+        else:
             raise Undecided(f"R7: unsupported for header `{txt}` in {fn}")
-        amp = txt.startswith("&")
-        x, v = m.group(1), m.group(2)
-        bind = f"let {x} = {'' if amp else '&'}{v}[{idx}];"
     if any(t.kind == "ident" and t.text == v.split(".")[0] and i + 1 < len(body) and is_p(body[i + 1], ".") and
            body[i + 2].text in ("push", "clear", "remove", "insert", "truncate", "swap_remove") for i, t in enumerate(body)):
         raise Undecided(f"R7: loop body mutates {v}")
     ws = toks[kw].ws
-    new = [syn(pre, pos, ws), Tok("ident", "while", pos, " "), syn(f"{idx} < {v}.len()", pos, " "),
+    cond = f"{idx} <= {v}.len() && {mw.group(3)} <= {v}.len() - {idx}" if (not m_enum and mw) else f"{idx} < {v}.len()"
+    new = [syn(pre, pos, ws), Tok("ident", "while", pos, " "), syn(cond, pos, " "),
            Tok("punct", "{", toks[bo].pos, " "), syn(bind, toks[bo].pos, " ")] + body + \
           [syn(f"{idx} += 1;", toks[bc].pos, " "), toks[bc]]
-    rep.rule("R7 for-in-iter loop -> index while loop")
+    rep.rule("R23 for-in-windows(n) loop -> index while loop" if (not m_enum and mw) else "R7 for-in-iter loop -> index while loop")
     return toks[:kw] + new + toks[bc + 1:]
 
 
@@ -1158,6 +1172,8 @@ class UnitBuilder:
         structural_ok = not any(t.kind == "ident" and t.text in ("str", "String", "Vec", "f32", "f64", "Box", "HashMap") for t in it.toks)
         attrs, _ = filter_attrs(it.attrs, self.rep, structural_ok, minus)
         toks = strip_vis(it.toks)
+        for old, new in withs:
+            toks = apply_subst(toks, old, new, self.rep, f"{kind} {name}")
         froms: List[Tuple[str, Optional[str], str]] = []
         if it.body_open is not None:
             bo = next(i for i, t in enumerate(toks) if is_p(t, "{"))
@@ -1168,8 +1184,6 @@ class UnitBuilder:
             bo = next(i for i, t in enumerate(toks) if is_p(t, "("))
             body = clean_type_body(toks[bo:], self.rep, True, froms, None)
             toks = toks[:bo] + body
-        for old, new in withs:
-            toks = apply_subst(toks, old, new, self.rep, f"{kind} {name}")
         self.out.text(attrs, kind="gen")
         self.out.text("pub ", kind="gen")
         toks[0] = Tok(toks[0].kind, toks[0].text, toks[0].pos, "")
@@ -1489,6 +1503,13 @@ class UnitBuilder:
                 raise Undecided(f"lost anchor: match arm #{k} with a block body in {fnq}")
             j = sites[k - 1] + 2
             return body[j:match_close(body, j) + 1]
+        m = re.match(r"^for_loop (\d+)$", anchor)
+        if m:
+            loops = [l for l in loop_positions(body) if body[l[0]].text == "for"]
+            k = int(m.group(1))
+            if k > len(loops):
+                raise Undecided(f"lost anchor: for loop #{k} in {fnq}")
+            return body[loops[k - 1][0]:loops[k - 1][2] + 1]
         m = re.match(r"^iflet_block (\d+)$", anchor)
         if m:
             # the block of the K-th `if let PAT = EXPR { .. }` of the function, braces included
@@ -1592,22 +1613,39 @@ class UnitBuilder:
         body = it.toks[it.body_open:]
         frags = {}
         wleafs: List[tuple] = []
+        lifted = set()
         for name, anchor in ws.frags.items():
             toks = list(self.cut_fragment(body, anchor, fnq))
             self.rep.cuts.append({"item": f"{ws.name}.{name} ({anchor})", "file": s.rel,
                                   "bytes": [toks[0].pos, toks[-1].end], "lines": [s.line(toks[0].pos), s.line(toks[-1].end)]})
             if ws.desugar_try:
                 toks = rule_R10(toks, ws.desugar_try, self.rep, fnq)
-            if ws.lifts:
-                toks = apply_lifts(toks, ws.lifts, self.rep, fnq, wleafs)
+            for fname, k in sorted(ws.foreach, key=lambda x: -x[1]):
+                if fname == name:
+                    toks = rule_R7(toks, k, self.rep, fnq)
+            for lf in ws.lifts:
+                # a lift of a wrap names an anchor in one of its fragments: it is applied where the anchor is found
+                try:
+                    toks = apply_lifts(toks, [lf], self.rep, fnq, wleafs)
+                    lifted.add(id(lf))
+                except Undecided as e:
+                    if "lost anchor" not in str(e):
+                        raise
             if self.spec.mode == "verus":
                 toks = rule_R1(toks, self.rep)
                 toks = rule_R2(toks, self.rep)
                 toks = rule_R3(toks, self.rep)
             for old, new in ws.substs:
                 toks = apply_subst(toks, old, new, self.rep, fnq)
+            if name in ws.frag_loops:
+                fake = FnSpec("fn", None, ws.name, ws.source)
+                fake.loops = ws.frag_loops[name]
+                toks = inject_loops(toks, fake, fnq)
             frags[name] = toks
             self.rep.rule("R11 fragment cut out of a function body and wrapped in a synthesised fn")
+        for lf in ws.lifts:
+            if id(lf) not in lifted:
+                raise Undecided(f"lost anchor: lift {lf.mode} {lf.key}#{lf.k} in no fragment of {fnq}")
         lo_line = self.out.line
         for a in ws.attrs:
             self.out.text(a + "\n", kind="gen")
